@@ -351,6 +351,9 @@ Lemma Inv_p_command a : Inv (p_command a). Proof. unfold p_command. inv_tac. Qed
 Lemma Inv_p_float a : Inv (p_float a). Proof. unfold p_float. inv_tac. Qed.
 Lemma Inv_p_floatreg a : Inv (p_floatreg a). Proof. unfold p_floatreg. inv_tac. Qed.
 Lemma Inv_p_regnode a : Inv (p_regnode a). Proof. unfold p_regnode. inv_tac. Qed.
+Lemma Inv_p_fswiss a : Inv (p_fswiss a). Proof. unfold p_fswiss. inv_tac. Qed.
+Lemma Inv_p_iconv a : Inv (p_iconv a). Proof. unfold p_iconv. inv_tac. Qed.
+Lemma Inv_p_fconv a : Inv (p_fconv a). Proof. unfold p_fconv. inv_tac. Qed.
 Lemma Inv_p_sentry fixed a : Inv (p_sentry fixed a). Proof. unfold p_sentry. inv_tac. Qed.
 Lemma Inv_p_enumentry fresh a : Inv (p_enumentry fresh a). Proof. unfold p_enumentry. inv_tac. Qed.
 
@@ -432,7 +435,7 @@ Proof.
     first [ apply Inv_p_plain | apply Inv_p_category | apply Inv_p_integer | apply Inv_p_intreg | apply Inv_p_masked
           | apply Inv_p_boolean | apply Inv_p_command | apply Inv_p_enumeration | apply Inv_p_float
           | apply Inv_p_floatreg | apply Inv_p_stringn | apply Inv_p_regnode | apply Inv_p_iswiss | apply Inv_p_port
-          | apply Inv_p_struct ].
+          | apply Inv_p_struct | apply Inv_p_fswiss | apply Inv_p_iconv | apply Inv_p_fconv ].
 Qed.
 
 (* ---------------------------------------------------------------------------------------------- *)
